@@ -143,7 +143,10 @@ def revolve(
     single += np.tile(np.arange(per), (2, 1)).T.reshape((-1, 1))
     # remove any zero-area triangle
     # this covers many cases without having to think too much
-    single = single[triangles.area(vertices[single]) > tol.merge]
+    # the last quad of a slice refers to the first vertices of the
+    # next two slices so wrap indexes as is done for the final faces:
+    # a single-section partial revolution only has two slices
+    single = single[triangles.area(vertices[single % len(vertices)]) > tol.merge]
 
     # how much to offset each slice
     # note arange multiplied by vertex stride
